@@ -469,6 +469,68 @@ func sortedBeforeRead(a *FnA, phi *ssa.Phi, ml *mapLoop) (bool, string) {
 	if len(outside) == 0 {
 		return true, "never read after the loop"
 	}
+	return valueSortedBeforeRead(a, a, phi, outside, ml, 0)
+}
+
+// valueSortedBeforeRead: every use (given) of the collected slice v in function a is the sort call,
+// an order-free use, or dominated by the sort. A slice that is only returned is followed into the
+// callers of the function (one level), where the call's result must be sorted before any read.
+// la is the analysis of the function that contains the loop ml.
+func valueSortedBeforeRead(a, la *FnA, phi ssa.Value, outside []ssa.Instruction, ml *mapLoop, depth int) (bool, string) {
+	// only returned?
+	allRet := len(outside) > 0
+	retIdx := -1
+	for _, r := range outside {
+		ret, ok := r.(*ssa.Return)
+		if !ok {
+			allRet = false
+			break
+		}
+		for i, res := range ret.Results {
+			if res == phi {
+				retIdx = i
+			}
+		}
+	}
+	if allRet && retIdx >= 0 && depth == 0 {
+		n := 0
+		for _, g := range a.c.CG().Funcs {
+			ga := a.c.FA(g)
+			for _, ci := range ga.callsTo(a.fn) {
+				call, ok := ci.(*ssa.Call)
+				if !ok {
+					return false, "the collected slice is returned unsorted to " + fname(g) + " (deferred / go call)"
+				}
+				var v ssa.Value = call
+				if a.fn.Signature.Results().Len() > 1 {
+					v = nil
+					for _, r := range nonDebugRefs(call) {
+						if ex, ok := r.(*ssa.Extract); ok && ex.Index == retIdx {
+							v = ex
+						}
+					}
+					if v == nil {
+						continue // result not used
+					}
+				}
+				n++
+				var uses []ssa.Instruction
+				for _, r := range nonDebugRefs(v.(ssa.Instruction).(ssa.Value)) {
+					uses = append(uses, r)
+				}
+				if len(uses) == 0 {
+					continue
+				}
+				if ok, why := valueSortedBeforeRead(ga, la, v, uses, ml, 1); !ok {
+					return false, "returned unsorted to " + fname(g) + ", where " + why
+				}
+			}
+		}
+		if n == 0 {
+			return false, "the collected slice is returned unsorted and no caller was found"
+		}
+		return true, "returned to its callers, each of which sorts it before any other read"
+	}
 	var sortCall ssa.Instruction
 	for _, r := range outside {
 		if ci, ok := r.(ssa.CallInstruction); ok && isSortCall(ci) && stripConv(ci.Common().Args[0]) == ssa.Value(phi) {
@@ -488,7 +550,7 @@ func sortedBeforeRead(a *FnA, phi *ssa.Phi, ml *mapLoop) (bool, string) {
 	if ok, why := sortOrderOK(a.c, sortCall.(ssa.CallInstruction)); !ok {
 		return false, "sorted, but not by a recognisable total order (" + why + "): the result may still depend on the map's iteration order"
 	}
-	if ok, why := uniqueSortKey(a, ml, sortCall.(ssa.CallInstruction)); !ok {
+	if ok, why := uniqueSortKey(la, ml, sortCall.(ssa.CallInstruction)); !ok {
 		return false, "sorted by a key two entries may share (" + why + "): entries that tie keep the map's iteration order"
 	}
 	for _, r := range outside {
@@ -774,7 +836,7 @@ func uniqueSortKey(a *FnA, ml *mapLoop, sortCall ssa.CallInstruction) (bool, str
 }
 
 func sortComplaint(why string) string {
-	if strings.HasPrefix(why, "sorted by a key two entries may share") {
+	if strings.Contains(why, "sorted by a key two entries may share") {
 		return "is sorted by a key two entries may share"
 	}
 	return "is read before being sorted"
